@@ -49,6 +49,11 @@ macro_rules! rows_for_buf {
         row!("P", "asyncdetached", $conc, $is, $iy, AsyncDetached<AsyncProdIter<'static, $b>, $b>);
         row!("W", "asyncdetached", $conc, $is, $iy, AsyncDetached<AsyncWorkIter<'static, $b>, $b>);
         row!("C", "asyncdetached", $conc, $is, $iy, AsyncDetached<AsyncConsIter<'static, $b, true>, $b>);
+        // a future borrowed from an async iterator holds `&mut` to it: whoever owns the future reaches the iterator
+        // (payload and output are sendable here, so only the iterator decides)
+        row!("P", "future", $conc, $is, $iy, async_iterators::MRBFuture<'static, AsyncProdIter<'static, $b>, u32, u32, false>);
+        row!("W", "future", $conc, $is, $iy, async_iterators::MRBFuture<'static, AsyncWorkIter<'static, $b>, u32, u32, true>);
+        row!("C", "future", $conc, $is, $iy, async_iterators::MRBFuture<'static, AsyncConsIter<'static, $b, true>, u32, u32, true>);
     };
 }
 
@@ -62,6 +67,7 @@ fn universal<T: Send + 'static>() {
     assert_send::<Detached<WorkIter<'static, ConcurrentHeapRB<T>>>>();
     assert_send::<AsyncProdIter<'static, ConcurrentHeapRB<T>>>();
     assert_send::<AsyncDetached<AsyncWorkIter<'static, ConcurrentHeapRB<T>>, ConcurrentHeapRB<T>>>();
+    assert_send::<async_iterators::MRBFuture<'static, AsyncProdIter<'static, ConcurrentHeapRB<T>>, T, (), false>>();
 }
 
 fn main() {
